@@ -1,11 +1,8 @@
 (* Lazy/LazyAggProofs.v — PROOF file for LazyAggVec<Sparse> and for the ReadableVec default wrappers.
-   Proved: collect_one_at equals the group formula for every mapping whose first-indexes stay within the
-   source (`wf_map`; monotonicity is not needed); the full statements (all monotone mappings, all ranges)
-   are refuted by the faithful model: a first-index past the end of the source makes Sparse::try_fold
-   index `values[vi]` out of bounds (read_sorted_at dropped the position) while Sparse::collect_one
-   answers None for a group that holds source elements.
-   NOT proved here (missing): the range reads / sorted reads of LazyAggVec equal the formula under
-   wf_map (only validated differentially). *)
+   For ALL sources and ALL mappings (any length, first-indexes past the end of the source, not even
+   monotone): every range read, collect_one_at and the (cursor based) read_sorted_at over ANY index list
+   return the group formula `Aspec`, and nothing panics.  (Before /repo commit 19edab9 a first-index past
+   the end of the source made Sparse::try_fold index `values[vi]` out of bounds.) *)
 From Anydb Require Import Common.Base Lazy.LazyBase Lazy.LazyBaseProofs Lazy.LazyFromProofs Lazy.LazyAgg.
 
 (* group idx = source positions [mapping[idx], mapping[idx+1]) ∩ [0, len src) (last group: to the end);
@@ -19,94 +16,134 @@ Definition Aspec (src : list Z) (mapping : list N) (idx : N) : option (option Z)
       if next <=? cur then Some None else Some (get src (next - 1))
   end.
 
-Definition wf_map (src : list Z) (mapping : list N) : Prop :=
-  forall j v, get mapping j = Some v -> v <= len src.
-Definition mono_map (mapping : list N) : Prop :=
-  forall i j a b, i <= j -> get mapping i = Some a -> get mapping j = Some b -> a <= b.
+Section PA.
+  Variables (src : list Z) (mapping : list N).
 
-Lemma agg_one_spec src mapping i : wf_map src mapping -> a_one src mapping i = Ok (Aspec src mapping i).
-Proof.
-  intros WF. unfold a_one, Aspec, a_len, src_one. rewrite !getb_get.
-  destruct (len mapping <=? i) eqn:E.
-  { assert (G : get mapping i = None) by (apply get_none_iff; lia). now rewrite G. }
-  destruct (get_lt_some mapping i) as [cur Hc]; [lia|]. rewrite Hc. cbv zeta.
-  set (nr := match get mapping (i + 1) with Some h => h | None => len src end).
-  assert (Hnr : nr <= len src).
-  { unfold nr. destruct (get mapping (i + 1)) eqn:G; [apply (WF _ _ G)|lia]. }
-  replace (N.min nr (len src)) with nr by lia.
-  destruct (nr =? 0) eqn:E0.
-  - cbn [orb]. replace (nr <=? cur) with true by lia. reflexivity.
-  - cbn [orb]. destruct (nr <=? cur); reflexivity.
-Qed.
+  Lemma Aspec_out_of_range i : a_len mapping <= i -> Aspec src mapping i = None.
+  Proof. unfold a_len, Aspec. intros H. apply get_none_iff in H. now rewrite H. Qed.
+  Lemma Aspec_in_range i : i < a_len mapping -> exists v, Aspec src mapping i = Some v.
+  Proof.
+    unfold a_len, Aspec. intros H. destruct (get_lt_some mapping i H) as [c Hc]. rewrite Hc. cbv zeta.
+    destruct (_ <=? c); eauto.
+  Qed.
 
-Lemma Aspec_out_of_range src mapping i : a_len mapping <= i -> Aspec src mapping i = None.
-Proof. unfold a_len, Aspec. intros H. apply get_none_iff in H. now rewrite H. Qed.
-Lemma Aspec_in_range src mapping i : i < a_len mapping -> exists v, Aspec src mapping i = Some v.
-Proof.
-  unfold a_len, Aspec. intros H. destruct (get_lt_some mapping i H) as [c Hc]. rewrite Hc. cbv zeta.
-  destruct (_ <=? c); eauto.
-Qed.
+  Lemma agg_one_spec i : a_one src mapping i = Ok (Aspec src mapping i).
+  Proof.
+    unfold a_one, Aspec, a_len, src_one. rewrite !getb_get.
+    destruct (len mapping <=? i) eqn:E.
+    { assert (G : get mapping i = None) by (apply get_none_iff; lia). now rewrite G. }
+    destruct (get_lt_some mapping i) as [cur Hc]; [lia|]. rewrite Hc. cbv zeta.
+    set (nx := N.min _ (len src)).
+    destruct (nx =? 0) eqn:E0.
+    - cbn [orb]. replace (nx <=? cur) with true by lia. reflexivity.
+    - cbn [orb]. destruct (nx <=? cur); reflexivity.
+  Qed.
 
-(* ---- full statements and refutations ------------------------------------------------------------ *)
-Definition agg_range_full : Prop :=
-  forall src mapping from to, mono_map mapping ->
+  (* a slot evaluated against the list of requested source positions instead of the values read *)
+  Definition slot_val (ind : list N) (slot : option N) : ev (option Z) :=
+    match slot with
+    | None => EV None
+    | Some vi => match get ind vi with
+                 | Some x => match get src x with Some v => EV (Some v) | None => EP end
+                 | None => EP
+                 end
+    end.
+
+  Lemma a_build_spec idxs : forall ind sm,
+    Forall (fun i => i < len mapping) idxs ->
+    exists ind' sm',
+      a_build mapping (len src) idxs ind sm = Some (ind ++ ind', sm ++ sm') /\
+      Forall (fun x => x < len src) ind' /\
+      forall tail, map (slot_val (ind ++ ind' ++ tail)) sm' = map EV (ovals (Aspec src mapping) idxs).
+  Proof.
+    induction idxs as [|idx tl IH]; intros ind sm Hall.
+    - exists [], []. cbn [a_build]. rewrite !app_nil_r. repeat split; auto.
+    - inversion Hall as [|? ? Hidx Htl]; subst. cbn [a_build]. rewrite !getb_get.
+      destruct (get_lt_some mapping idx Hidx) as [cur Hc]. rewrite Hc.
+      rewrite ovals_cons. unfold Aspec at 1. rewrite Hc. cbv zeta.
+      set (nx := N.min _ (len src)).
+      destruct ((nx =? 0) || (nx <=? cur)) eqn:Eg.
+      + replace (nx <=? cur) with true by lia.
+        destruct (IH ind (sm ++ [None]) Htl) as [ind' [sm' [Hb [Hf Hm]]]].
+        exists ind', (None :: sm'). rewrite Hb. rewrite <- app_assoc. cbn [app].
+        repeat split; auto. intros tail. cbn [map slot_val]. f_equal. apply Hm.
+      + replace (nx <=? cur) with false by lia.
+        destruct (IH (ind ++ [nx - 1]) (sm ++ [Some (len ind)]) Htl) as [ind' [sm' [Hb [Hf Hm]]]].
+        exists ((nx - 1) :: ind'), (Some (len ind) :: sm'). rewrite Hb. rewrite <- !app_assoc. cbn [app].
+        assert (Hx : nx - 1 < len src) by (unfold nx in *; lia).
+        repeat split; [constructor; auto|]. intros tail. cbn [map slot_val].
+        replace (ind ++ nx - 1 :: ind' ++ tail) with ((ind ++ [nx - 1]) ++ ind' ++ tail)
+          by (rewrite <- app_assoc; reflexivity).
+        assert (Hl : len ind < len (ind ++ [nx - 1])) by (rewrite len_app, len_cons, len_nil; lia).
+        rewrite (get_app_l (ind ++ [nx - 1]) (ind' ++ tail) (len ind) Hl), get_snoc.
+        destruct (get_lt_some src (nx - 1) Hx) as [v Hv]. rewrite Hv. f_equal. apply Hm.
+  Qed.
+
+  Lemma a_try_fold_spec from to :
+    to <= len mapping ->
+    a_try_fold src mapping from to
+    = map EV (ovals (Aspec src mapping) (seqN from (N.to_nat (to - from)))).
+  Proof.
+    intros Hto. unfold a_try_fold. cbv zeta.
+    destruct (a_build_spec (seqN from (N.to_nat (to - from))) [] []) as [ind' [sm' [Hb [Hf Hm]]]].
+    { apply Forall_seqN. intros i Hi. lia. }
+    rewrite Hb. cbn [app]. specialize (Hm []). rewrite app_nil_r in Hm. cbn [app] in Hm.
+    rewrite <- Hm. apply map_ext_in. intros [vi|] _; [|reflexivity].
+    cbn [slot_val]. rewrite getb_get, src_sorted_ovals.
+    rewrite get_ovals_total.
+    - destruct (get ind' vi); [|reflexivity]. now destruct (get src n).
+    - eapply Forall_impl; [|exact Hf]. intros x Hx. now apply get_lt_some.
+  Qed.
+
+  (* read_into_at, for_each_range_dyn_at, fold_range_at, try_fold_range_at: every element is the formula *)
+  Lemma agg_range_spec from to :
+    a_range src mapping from to
+    = map EV (ovals (Aspec src mapping) (range_idx (a_len mapping) from to)).
+  Proof.
+    unfold a_range, range_idx, a_len. cbv zeta.
+    destruct (N.min to (len mapping) <=? from) eqn:E.
+    - replace (N.to_nat (N.min to (len mapping) - from)) with O by lia. reflexivity.
+    - apply a_try_fold_spec. lia.
+  Qed.
+  Lemma agg_range_run from to :
     run_all (a_range src mapping from to) = Ok (ovals (Aspec src mapping) (range_idx (a_len mapping) from to)).
-Definition agg_one_full : Prop :=
-  forall src mapping i, mono_map mapping -> a_one src mapping i = Ok (Aspec src mapping i).
+  Proof. rewrite agg_range_spec. apply run_all_EV. Qed.
+  Lemma agg_range_stop from to k :
+    run_stop k (a_try_fold_range src mapping from to)
+    = Ok (take k (ovals (Aspec src mapping) (range_idx (a_len mapping) from to)),
+          k <? len (ovals (Aspec src mapping) (range_idx (a_len mapping) from to))).
+  Proof. unfold a_try_fold_range. rewrite agg_range_spec. apply run_stop_EV. Qed.
 
-Lemma mono_0_2 : mono_map [0; 2].
-Proof.
-  intros i j a b Hij Ha Hb.
-  pose proof (get_some_lt _ _ _ Ha) as La. pose proof (get_some_lt _ _ _ Hb) as Lb.
-  unfold len in La, Lb. cbn in La, Lb.
-  assert (Hi : i = 0 \/ i = 1) by lia. assert (Hj : j = 0 \/ j = 1) by lia.
-  destruct Hi as [-> | ->]; vm_compute in Ha; inversion Ha; subst a;
-  destruct Hj as [-> | ->]; vm_compute in Hb; inversion Hb; subst b; lia.
-Qed.
+  (* read_sorted_at (default: a Cursor over the vector itself) and cursor().get, for any index list *)
+  Lemma agg_sorted_spec idx : a_sorted src mapping idx = Ok (ovals (Aspec src mapping) idx).
+  Proof.
+    unfold a_sorted. apply default_read_sorted_spec.
+    - apply Aspec_in_range.
+    - apply Aspec_out_of_range.
+    - intros f t. unfold a_read_into. apply agg_range_run.
+  Qed.
+  Lemma agg_cursor_spec idx :
+    cursor_gets (a_len mapping) (fun f t => run_all (a_read_into src mapping f t)) cursor_new idx
+    = Ok (map (Aspec src mapping) idx).
+  Proof.
+    apply (cursor_gets_spec (a_len mapping) (Aspec src mapping)); [apply Aspec_in_range|apply Aspec_out_of_range| |apply cinv_new].
+    intros f t. unfold a_read_into. apply agg_range_run.
+  Qed.
+End PA.
 
-(* the mapping knows a first-index (2) past the end of the one-element source *)
-Lemma agg_mapping_past_end_refuted :
-  exists src mapping,
-    mono_map mapping /\
-    run_all (a_range src mapping 0 1) = Panic /\            (* every range read and, through the cursor, read_sorted_at *)
-    a_sorted src mapping [0] = Panic /\
-    a_one src mapping 0 = Ok (Some None) /\                  (* collect_one_at: "empty group" *)
-    Aspec src mapping 0 = Some (Some 7%Z).                   (* the group holds source element 0 *)
-Proof. exists [7%Z], [0; 2]. split; [apply mono_0_2|vm_compute; auto]. Qed.
+(* a mapping that knows first-indexes past the end of the source, a duplicate (empty group) *)
+Example agg_example :
+  run_all (a_range [7; 8; 9]%Z [0; 2; 2; 5; 9] 0 99) = Ok [Some 8; None; Some 9; None; None]%Z.
+Proof. vm_compute. reflexivity. Qed.
 
-Lemma agg_range_full_refuted : ~ agg_range_full.
-Proof.
-  intros H. destruct agg_mapping_past_end_refuted as [src [m [Hm [Hp _]]]].
-  rewrite (H src m 0 1 Hm) in Hp. discriminate.
-Qed.
-Lemma agg_one_full_refuted : ~ agg_one_full.
-Proof.
-  intros H. destruct agg_mapping_past_end_refuted as [src [m [Hm [_ [_ [H1 H2]]]]]].
-  rewrite (H src m 0 Hm), H2 in H1. discriminate.
-Qed.
-
-(* ---- ReadableVec::collect_range_dyn (readable.rs:277): capacity computed before clamping ---------- *)
-Definition collect_range_full : Prop :=
-  forall (T : Type) esz (rd : N -> N -> res unit (list T)) from to,
-    collect_range_at esz rd from to = rd from to.
-
-Lemma collect_range_huge_to_refuted :
-  exists (rd : N -> N -> res unit (list Z)),
-    rd 0 usize_max = Ok [] /\ collect_range_at 8 rd 0 usize_max = Panic.
-Proof. exists (fun _ _ => Ok []). split; vm_compute; reflexivity. Qed.
-
-Lemma collect_range_full_refuted : ~ collect_range_full.
-Proof.
-  intros H. destruct collect_range_huge_to_refuted as [rd [H1 H2]].
-  rewrite (H Z 8 rd 0 usize_max), H1 in H2. discriminate.
-Qed.
-
-(* the restricted statement: requests whose width fits an allocation are passed through unchanged *)
-Lemma collect_range_ok {T} esz (rd : N -> N -> res unit (list T)) from to :
-  (to - from) * esz <= isize_max -> collect_range_at esz rd from to = rd from to.
+(* ---- ReadableVec::collect_range_dyn (readable.rs:251) ------------------------------------------------
+   the capacity is computed from the clamped range: for every vector whose len() * size_of::<T>() fits
+   isize (any vector that can be collected at all) every request is passed through to read_into_at *)
+Lemma collect_range_ok {T} esz vlen (rd : N -> N -> res unit (list T)) from to :
+  vlen * esz <= isize_max -> collect_range_at esz vlen rd from to = rd from to.
 Proof.
   intros H. unfold collect_range_at, collect_range_dyn, cap_overflows.
-  replace (isize_max <? (to - from) * esz) with false by lia. reflexivity.
+  replace (isize_max <? (N.min to vlen - from) * esz) with false by nia. reflexivity.
 Qed.
 Lemma collect_signed_ok {T} esz vlen (rd : N -> N -> res unit (list T)) from to :
   vlen * esz <= isize_max ->
@@ -119,5 +156,12 @@ Proof.
   { intros i. unfold i64_to_usize. destruct (0 <=? i)%Z eqn:E0; [lia|]. destruct (Z.of_N vlen + i <? 0)%Z eqn:E; lia. }
   assert (Hf : f <= vlen) by (unfold f; destruct from; [apply Hb|lia]).
   assert (Ht : t' <= vlen) by (unfold t'; destruct to; [apply Hb|lia]).
-  exists f, t'. repeat split; try assumption. apply collect_range_ok. nia.
+  exists f, t'. repeat split; try assumption. now apply collect_range_ok.
 Qed.
+Lemma collect_all_ok {T} esz vlen (rd : N -> N -> res unit (list T)) :
+  vlen * esz <= isize_max -> collect_all esz vlen rd = rd 0 vlen.
+Proof. intros H. unfold collect_all. now apply collect_range_ok. Qed.
+(* the huge request that used to panic with "capacity overflow" *)
+Example collect_range_huge_to :
+  collect_range_at 8 3 (fun _ _ => Ok [1; 2; 3]%Z) 0 usize_max = Ok [1; 2; 3]%Z.
+Proof. vm_compute. reflexivity. Qed.
